@@ -510,7 +510,8 @@ def _quantifier_of(e, fdef, depth=0):
         return _quantifier_of(defs[0].value, fdef, depth + 1) if len(defs) == 1 else None
     if isinstance(e, ast.Call) and isinstance(e.func, ast.Name) and e.func.id in ('any', 'all') and len(e.args) == 1 and isinstance(e.args[0], (ast.GeneratorExp, ast.ListComp)):
         g = e.args[0]
-        if len(g.generators) != 1 or g.generators[0].ifs:
+        # filters that do not look at the contig name (empty entries skipped) only restrict which hits are quantified over
+        if len(g.generators) != 1 or any('endswith' in src(t_) or '_alt' in src(t_) for t_ in g.generators[0].ifs):
             return None
         elem = {n.id for n in ast.walk(g.generators[0].target) if isinstance(n, ast.Name)}
         pol = _endswith_alt_polarity(g.elt, True, elem)
@@ -564,6 +565,10 @@ def r7(ctx):
              what='read_has_alternative_hits_to_non_alts: the quantifier over the XA hits is wrong (reads with mixed _alt / regular hits are kept)')
     # the hits are the ;-separated entries of the XA tag, the contig is their first ,-separated field
     txt = src(f)
+    modh = ctx.ix.module(COUNTTABLE)
+    for c_ in walk_no_nested(f):
+        if isinstance(c_, ast.Call) and isinstance(c_.func, ast.Name) and c_.func.id in modh.defs and c_.func.id != f.name:
+            txt += '\n' + src(modh.defs[c_.func.id][0])           # a helper of the module that parses one hit
     okp = "get_tag('XA')" in txt and ".split(';')" in txt and ".split(',')" in txt
     ctx.emit('C11-R7', okp, COUNTTABLE, f, 'hits are the ;-separated XA entries, the contig their first field', key='xa-filter-parsing', nontrivial=False)
 
